@@ -25,7 +25,7 @@ ENUMS = [['vlab.tasks_core', 'Color', 'RED'], ['vlab.tasks_core', 'Color', 'GREE
          ['vlab.tasks_core', 'Evaluate.Mode', 'FAST'], ['vlab.tasks_core', 'Evaluate.Mode', 'FULL']]
 TASKS = [['vlab.tasks_core', 'VA'], ['vlab.tasks_core', 'VB'], ['vlab.tasks_core', 'VAX'],
          ['vlab.tasks_alt', 'VA'], ['vlab.tasks_core', 'VJ'], ['vlab.tasks_core', 'VP'], ['vlab.tasks_core', 'VU'],
-         ['vlab.tasks_core', 'V\u00c9']]
+         ['vlab.tasks_core', 'V\u00c9'], ['vlab.tasks_core', 'V__W_']]
 KEYS = ['a', 'b', 'k', '', 'é', 'name', 'is_task', 'x.y', '0', 'p']
 UNSUPPORTED = ['set', 'bytes', 'object', 'complex', 'intkey', 'nonekey', 'tuplekey', 'frozenset', 'bytearray',
                'function', 'type', 'mixedkey-int', 'mixedkey-none', 'mixedkey-tuple', 'mixedkey-last']
@@ -80,9 +80,9 @@ def realize(desc):
     if 't' in desc:
         return tuple(realize(x) for x in desc['t'])
     if 'd' in desc:
-        return {k: realize(v) for k, v in desc['d']}
+        return {realize_key(k): realize(v) for k, v in desc['d']}
     if 'fd' in desc:
-        return frozendict({k: realize(v) for k, v in desc['fd']})
+        return frozendict({realize_key(k): realize(v) for k, v in desc['fd']})
     if 'task' in desc:
         m, c, p, q = desc['task']
         return make_task(m, c, realize(p), realize(q))
@@ -111,6 +111,16 @@ def pickle_protocols(task):
     except Exception:
         pass                                # judged by the caller's own round trips
     return range(lo, pickle.HIGHEST_PROTOCOL + 1)
+
+
+def realize_key(k):
+    """Dict keys prefixed by \\x00E: / \\x00S: stand for an equal string of another type: a member of a (str, Enum)
+    mix-in, an instance of a str subclass (only with_scalar_subclasses() produces them)."""
+    if k.startswith('\x00E:'):
+        return importlib.import_module('vlab.tasks_core').KeyE(k[3:])
+    if k.startswith('\x00S:'):
+        return importlib.import_module('vlab.tasks_core').SubStr(k[3:])
+    return k
 
 
 def make_task(module, cls, p, q):
@@ -347,6 +357,15 @@ def with_scalar_subclasses(rng, desc):
     d = copy.deepcopy(desc)
     leaves = [(p, n) for p, n in nodes(d)
               if 'f' in n or ('s' in n and type(n['s']) in (int, str))]
+    dicts = [n for _, n in nodes(d) if ('d' in n or 'fd' in n) and (n.get('d') or n.get('fd'))]
+    if dicts and (not leaves or rng.random() < 0.5):
+        # ... or some dict keys replaced by equal strings of another type
+        n = rng.choice(dicts)
+        items = n['d'] if 'd' in n else n['fd']
+        for it in rng.sample(items, rng.randrange(1, len(items) + 1)):
+            it[0] = ('\x00E:' if rng.random() < 0.6 else '\x00S:') + it[0]
+        if not leaves or rng.random() < 0.5:
+            return d
     if not leaves:
         return None
     for path, n in rng.sample(leaves, rng.randrange(1, min(3, len(leaves)) + 1)):
@@ -363,6 +382,8 @@ def plain_scalars(desc):
     if isinstance(desc, dict) and 'sub' in desc:
         base, v = desc['sub']
         return {'f': v} if base == 'float' else {'s': v}
+    if isinstance(desc, str) and desc[:3] in ('\x00E:', '\x00S:'):
+        return desc[3:]
     if isinstance(desc, dict):
         return {k: plain_scalars(v) for k, v in desc.items()}
     if isinstance(desc, list):
